@@ -1,36 +1,230 @@
 import Anysystem.Spec.StoreSpec
+import Anysystem.Proofs.SpecLemmas
+import Anysystem.Proofs.StoreLemmas
 namespace Anysystem
+
+theorem head_offered (x : Nat × Ev) (rest : List (Nat × Ev)) : x.1 ∈ specOffered (x :: rest) := by
+  simp [specOffered, offeredFrom]
 
 theorem store_refines (ops : List Op) (a : AStore) (outs : List Out)
     (h : AStore.run {} ops = some (a, outs)) :
-    ∃ s, Store.runOps {} {} ops = .ok (s, outs) ∧ Abs s a := sorry
+    ∃ s, Store.runOps {} {} ops = .ok (s, outs) ∧ Abs s a := by
+  obtain ⟨s, hs, hr⟩ := Rep.run (s := {}) (a := {}) Rep.empty h
+  exact ⟨s, hs, hr.abs⟩
 
 theorem offered_exact (ops : List Op) (a : AStore) (outs : List Out)
     (h : AStore.run {} ops = some (a, outs)) (id : Nat) :
     id ∈ specOffered a.pending ↔
-      ∃ pre e post, a.pending = pre ++ (id, e) :: post ∧ ∀ y ∈ pre, blocks y.2 e = false := sorry
+      ∃ pre e post, a.pending = pre ++ (id, e) :: post ∧ ∀ y ∈ pre, blocks y.2 e = false := by
+  have hinv := PInv.of_run h
+  constructor
+  · intro hm
+    obtain ⟨e, hg⟩ := specOffered_live hm
+    obtain ⟨l, r, hd⟩ := amGet?_decomp hg
+    refine ⟨l, e, r, hd, ?_⟩
+    have hnd := hinv.nodup
+    rw [hd] at hm hnd
+    exact (mem_specOffered_decomp l r id e hnd).mp hm
+  · rintro ⟨l, e, r, hd, hb⟩
+    have hnd := hinv.nodup
+    rw [hd] at hnd ⊢
+    exact (mem_specOffered_decomp l r id e hnd).mpr hb
+
+theorem mode_lemma (av sp : List Nat) (f g : Nat → Bool) (hfg : ∀ id, f id = g id)
+    (hav : ∀ id, id ∈ av ↔ id ∈ sp) (id : Nat) :
+    id ∈ (if (av.filter f).isEmpty then av else av.filter f) ↔
+      id ∈ (if (sp.filter g).isEmpty then sp else sp.filter g) := by
+  have hf : f = g := funext hfg
+  subst hf
+  have hmem : ∀ id, id ∈ av.filter f ↔ id ∈ sp.filter f := by
+    intro id
+    simp only [List.mem_filter, hav]
+  have hemp : (av.filter f).isEmpty = (sp.filter f).isEmpty := by
+    rw [Bool.eq_iff_iff]
+    simp only [List.isEmpty_iff, List.eq_nil_iff_forall_not_mem, hmem]
+  rw [hemp]
+  split
+  · exact hav id
+  · exact hmem id
 
 theorem available_events_exact (ops : List Op) (a : AStore) (outs : List Out)
     (h : AStore.run {} ops = some (a, outs)) (mode : Mode) :
     ∃ s l, Store.runOps {} {} ops = .ok (s, outs) ∧ s.availableEvents mode = .ok l ∧
-      ∀ id, id ∈ l ↔ id ∈ specOfferedMode a.pending mode := sorry
+      ∀ id, id ∈ l ↔ id ∈ specOfferedMode a.pending mode := by
+  obtain ⟨s, hs, hr⟩ := Rep.run (s := {}) (a := {}) Rep.empty h
+  have habs := hr.abs
+  have hassert : s.assertOk = true := by
+    simp only [Store.assertOk, Bool.or_eq_true, Bool.not_eq_eq_eq_not, Bool.not_true]
+    cases hev : s.events with
+    | nil => right; rfl
+    | cons x rest =>
+      left
+      have hx : amGet? x.1 s.events = some x.2 := by rw [hev]; simp [amGet?]
+      rw [hr.get_eq] at hx
+      have hmem := amGet?_eq_some_mem hx
+      cases hp : a.pending with
+      | nil => rw [hp] at hmem; simp at hmem
+      | cons y ys =>
+        have := (hr.avail y.1).mpr (by rw [hp]; exact head_offered y ys)
+        cases hav : s.available with
+        | nil => rw [hav] at this; simp at this
+        | cons _ _ => rfl
+  cases mode with
+  | normal =>
+    refine ⟨s, s.available, hs, ?_, ?_⟩
+    · simp [Store.availableEvents, hassert]
+    · intro id
+      simp only [specOfferedMode]
+      exact hr.avail id
+  | messagesFirst =>
+    have hlive : s.available.any (fun id => (s.get id).isNone) = false := by
+      rw [List.any_eq_false]
+      intro id hid
+      obtain ⟨e, he⟩ := specOffered_live ((hr.avail id).mp hid)
+      simp only [Store.get, hr.get_eq, he]
+      simp
+    have key : ∃ l, s.availableEvents .messagesFirst = .ok l ∧
+        ∀ id, id ∈ l ↔ id ∈ specOfferedMode a.pending .messagesFirst := by
+      simp only [Store.availableEvents, hassert, Bool.not_true, Bool.false_eq_true, ↓reduceIte,
+        hlive]
+      refine ⟨_, rfl, ?_⟩
+      intro id
+      simp only [specOfferedMode]
+      exact mode_lemma _ _ _ _ (fun id => by rw [habs.get_eq] <;> rfl) hr.avail id
+    obtain ⟨l, hl, hiff⟩ := key
+    exact ⟨s, l, hs, hl, hiff⟩
 
+set_option linter.unusedVariables false in
 theorem no_wedge (ops : List Op) (a : AStore) (outs : List Out)
     (h : AStore.run {} ops = some (a, outs)) (hne : a.pending ≠ []) :
-    specOffered a.pending ≠ [] := sorry
+    specOffered a.pending ≠ [] := by
+  cases hp : a.pending with
+  | nil => exact absurd hp hne
+  | cons x rest =>
+    intro he
+    have := head_offered x rest
+    rw [he] at this
+    simp at this
+
+theorem popOffered_prefix (pre : List (Nat × Ev)) (x : Nat × Ev) (post : List (Nat × Ev))
+    (hnd : (keys (pre ++ x :: post)).Nodup) :
+    popOffered (pre ++ x :: post) (keys pre) = some (x :: post) := by
+  induction pre with
+  | nil => simp [popOffered]
+  | cons y pre ih =>
+    simp only [keys, List.cons_append, List.map_cons, List.nodup_cons] at hnd
+    simp only [keys, List.map_cons, popOffered, List.cons_append, head_offered, ↓reduceIte]
+    have hf : List.filter (fun z => z.1 != y.1) (y :: (pre ++ x :: post)) = pre ++ x :: post := by
+      simp only [List.filter_cons, bne_self_eq_false, Bool.false_eq_true, ↓reduceIte]
+      rw [List.filter_eq_self]
+      intro z hz
+      simp only [bne_iff_ne, ne_eq]
+      intro e
+      apply hnd.1
+      rw [← e]
+      exact List.mem_map_of_mem hz
+    rw [hf]
+    exact ih hnd.2
 
 theorem progress (ops : List Op) (a : AStore) (outs : List Out)
     (h : AStore.run {} ops = some (a, outs)) (x : Nat × Ev) (hx : x ∈ a.pending) :
     ∃ ids A', ids.length ≤ a.pending.length ∧ x.1 ∉ ids ∧ popOffered a.pending ids = some A' ∧
-      x.1 ∈ specOffered A' := sorry
+      x.1 ∈ specOffered A' := by
+  have hinv := PInv.of_run h
+  obtain ⟨pre, post, hd⟩ := List.append_of_mem hx
+  have hnd := hinv.nodup
+  rw [hd] at hnd
+  refine ⟨keys pre, x :: post, ?_, ?_, ?_, head_offered x post⟩
+  · rw [hd]; simp only [keys, List.length_map, List.length_append, List.length_cons]; omega
+  · simp only [keys, List.map_append, List.map_cons] at hnd
+    rw [List.nodup_append] at hnd
+    intro hm
+    exact hnd.2.2 _ hm x.1 (by simp) rfl
+  · rw [hd]; exact popOffered_prefix pre x post hnd
 
 theorem ids_unique (ops : List Op) (a : AStore) (outs : List Out)
     (h : AStore.run {} ops = some (a, outs)) :
-    (a.pending.map (·.1)).Nodup ∧ ∀ x ∈ a.pending, x.1 < a.next := sorry
+    (a.pending.map (·.1)).Nodup ∧ ∀ x ∈ a.pending, x.1 < a.next :=
+  ⟨(PInv.of_run h).nodup, (PInv.of_run h).lt_next⟩
 
+theorem dead_step {a a' : AStore} {op : Op} {o : Out} {id : Nat}
+    (hdead : a.live id = false) (hold : id < a.next) (hs : a.step op = some (a', o))
+    (hno : ∀ e, op ≠ Op.reinsert e id) : a'.live id = false ∧ id < a'.next := by
+  rw [not_live_iff] at hdead ⊢
+  have hfil : ∀ q : Nat × Ev → Bool, id ∉ keys (a.pending.filter q) := by
+    intro q hm
+    obtain ⟨x, hx, hxe⟩ := List.mem_map.mp hm
+    exact hdead (List.mem_map.mpr ⟨x, (List.mem_filter.mp hx).1, hxe⟩)
+  cases op with
+  | push e =>
+    simp only [AStore.step] at hs
+    split at hs
+    · simp only [Option.some.injEq, Prod.mk.injEq] at hs
+      obtain ⟨rfl, _⟩ := hs
+      simp only [keys, List.map_append, List.map_cons, List.map_nil, List.mem_append,
+        List.mem_singleton]
+      exact ⟨fun h => h.elim hdead (by omega), by omega⟩
+    · split at hs
+      · simp only [Option.some.injEq, Prod.mk.injEq] at hs
+        obtain ⟨rfl, _⟩ := hs
+        simp only [keys, List.map_append, List.map_cons, List.map_nil, List.mem_append,
+          List.mem_singleton]
+        exact ⟨fun h => h.elim hdead (by omega), by omega⟩
+      · simp at hs
+  | reinsert e id' =>
+    simp only [AStore.step] at hs
+    split at hs
+    · simp only [Option.some.injEq, Prod.mk.injEq] at hs
+      obtain ⟨rfl, _⟩ := hs
+      have : id ≠ id' := by
+        intro e'; subst e'; exact hno e rfl
+      simp only [keys, List.map_append, List.map_cons, List.map_nil, List.mem_append,
+        List.mem_singleton]
+      exact ⟨fun h => h.elim hdead this, hold⟩
+    · simp at hs
+  | pop id' =>
+    simp only [AStore.step] at hs
+    split at hs
+    · simp only [Option.some.injEq, Prod.mk.injEq] at hs
+      obtain ⟨rfl, _⟩ := hs
+      exact ⟨hfil _, hold⟩
+    · simp at hs
+  | cancelTimer p n =>
+    simp only [AStore.step] at hs
+    split at hs
+    · simp only [Option.some.injEq, Prod.mk.injEq] at hs
+      obtain ⟨rfl, _⟩ := hs
+      exact ⟨hdead, hold⟩
+    · simp only [Option.some.injEq, Prod.mk.injEq] at hs
+      obtain ⟨rfl, _⟩ := hs
+      exact ⟨hfil _, hold⟩
+  | cancelProc p =>
+    simp only [AStore.step, Option.some.injEq, Prod.mk.injEq] at hs
+    obtain ⟨rfl, _⟩ := hs
+    exact ⟨hfil _, hold⟩
+
+set_option linter.unusedVariables false in
 theorem no_resurrection (ops₁ ops₂ : List Op) (a₁ a₂ : AStore) (o₁ o₂ : List Out) (id : Nat)
     (h₁ : AStore.run {} ops₁ = some (a₁, o₁)) (hdead : a₁.live id = false) (hold : id < a₁.next)
     (h₂ : a₁.run ops₂ = some (a₂, o₂)) (hno : ∀ e, Op.reinsert e id ∉ ops₂) :
-    a₂.live id = false := sorry
+    a₂.live id = false := by
+  clear h₁
+  induction ops₂ generalizing a₁ o₂ with
+  | nil =>
+    simp only [AStore.run, Option.some.injEq, Prod.mk.injEq] at h₂
+    obtain ⟨rfl, _⟩ := h₂
+    exact hdead
+  | cons op ops ih =>
+    simp only [AStore.run] at h₂
+    split at h₂
+    · simp at h₂
+    · rename_i a1 o1 hstep
+      split at h₂
+      · simp at h₂
+      · rename_i a2 os2 hrun
+        simp only [Option.some.injEq, Prod.mk.injEq] at h₂
+        obtain ⟨rfl, _⟩ := h₂
+        have hd := dead_step hdead hold hstep (fun e he => hno e (by simp [he]))
+        exact ih a1 os2 hd.1 hd.2 hrun (fun e hm => hno e (by simp [hm]))
 
 end Anysystem
